@@ -12,7 +12,8 @@ Read out of the function bodies (regex over the text, comments stripped):
   src_relocate_stages   relocate_return_value, frame-string branch: the copy to the persistent
                         arena is taken BEFORE `self.frame.reset(frame_offset)` and the rebuild on
                         the frame AFTER it, and the staging mark is reset last
-  src_relocate_arrays   relocate_return_value: arrays are promoted before the frame reset
+  src_relocate_arrays   relocate_return_value: arrays (possibly together with other heap-backed kinds) are
+                        promoted before the frame reset
   src_stores_promote    every other store site promotes: define_var, define_bound_local,
                         overwrite_slot (after returning the old slot), assign_index, push, shout
   src_promote_copies    ArenaCow::promote: a Borrowed string inside the frame or a pool slot, and an
@@ -105,9 +106,9 @@ def generate():
     if i_reset < 0:
         raise TranslatorError("relocate_return_value: no frame reset found")
     flags["src_relocate_stages"] = (0 <= i_mark < i_stage < i_reset < i_build < i_unstage)
-    flags["src_relocate_arrays"] = (
-        "ifmatches!(val,Value::Array(_)){letpromoted=val.promote(&self.pool,self.frame);"
-        "unsafe{self.frame.reset(frame_offset)};returnpromoted;}" in b)
+    flags["src_relocate_arrays"] = bool(re.search(
+        r"ifmatches!\(val,(?:Value::\w+\(_\)\|)*Value::Array\(_\)(?:\|Value::\w+\(_\))*\)"
+        r"\{letpromoted=val\.promote\(&self\.pool,self\.frame\);unsafe\{self\.frame\.reset\(frame_offset\)\};returnpromoted;\}", b))
 
     # ---- the other store sites
     ok = True
